@@ -1,7 +1,9 @@
 import AcraModel.Sql.Literal
 import AcraModel.Sql.Ident
 import Driver.C13Expr
+import Driver.C13Sel
 import AcraModel.Sql.Forms
+import AcraModel.Sql.Grammar
 /-! Driver ops for C13 (re-serialisation): literal codec. -/
 namespace Driver.C13
 open AcraModel AcraModel.Sql
@@ -36,8 +38,21 @@ def formsOmissions : String :=
   let l := AcraModel.Sql.Forms.omissions AcraModel.Sql.Forms.prods AcraModel.Sql.Forms.paths
   if l.isEmpty then "-" else " ".intercalate (l.map fun o => s!"{o.1};{o.2.1};{o.2.2}")
 
+/-- `grammar.alts`: the regenerated table of the alternatives reachable from the DML statements, one token per
+alternative: `rule;alt;sym:cls,…;flow positions` (names in hex; `-` for an empty list) -/
+def grammarAlts : String :=
+  let cls : AcraModel.Sql.Grammar.Cls → String
+    | .lex => "lex" | .kw => "kw" | .sem => "sem" | .void => "void"
+  let j (l : List String) := if l.isEmpty then "-" else ",".intercalate l
+  let row (A : AcraModel.Sql.Grammar.GAlt) : String :=
+    s!"{hexS A.rule};{A.idx};{j (A.rhs.map fun x => s!"{hexS x.name}:{cls x.cls}")};{j (A.flow.map toString)}"
+  " ".intercalate (AcraModel.Sql.Grammar.alts.map row)
+
 def handle (op : String) (args : List String) : Option String :=
   match op, args with
+  | "grammar.alts", [] => some grammarAlts
+  | "grammar.roots", [] => some (" ".intercalate AcraModel.Generated.SqlGrammar.dmlRoots)
+  | "grammar.tableok", [] => some (if AcraModel.Sql.Grammar.tableOK && AcraModel.Sql.Grammar.lexFreeClosed then "true" else "false")
   | "forms.prods", [] => some formsProds
   | "forms.paths", [] => some formsPaths
   | "forms.omissions", [] => some formsOmissions
@@ -71,6 +86,9 @@ def handle (op : String) (args : List String) : Option String :=
       match Ident.scanQuotedIdent q b with
       | some (v, rest) => pure s!"ok {hexOf v} {hexOf rest}"
       | none => pure "err"
-  | _, _ => Driver.C13Expr.handle op args
+  | _, _ =>
+      match Driver.C13Sel.handle op args with
+      | some r => some r
+      | none => Driver.C13Expr.handle op args
 
 end Driver.C13
